@@ -197,7 +197,7 @@ theorem doInit_coherent (F : Fns α) (st : State α) (M : Mat α) (nr nt : List 
   simp only
   split
   · exact install_coherent F _ M _ _ _ (extK_coherent F st _ h)
-  · exact extK_coherent F st _ h
+  · exact h
 
 theorem doRandomize_coherent (F : Fns α) (st : State α) (M : Mat α) (nr nt : List Nat) (K : Nat)
     (ntE : List Nat) (h : Coherent F st) : Coherent F (doRandomize Cfg.fixed st M nr nt K ntE).1 := by
@@ -369,6 +369,72 @@ theorem doCorrupt_spec (F : Fns α) (st : State α) (x xe : List (Mat α)) (nois
       exact finishCorrupt_spec F _ _ (some n) (coherent_lastNoise F _ (some v) (some n) hco)
 
 
+/-- what `corrupt_concatenated_data` must return: `W^H (big_H X + noise)`, not split -/
+def specReceivedCat (F : Fns α) (st : State α) (X : Mat α) (noise : Option (Mat α)) : Mat α :=
+  let y0 := matMul (specBigH F st) X
+  let y1 := match st.noiseVar, noise with
+    | some _, some n => matAdd y0 n
+    | _, _ => y0
+  match st.w with
+  | some ws => conjTMul F.conj (blockDiag ws) y1
+  | none => y1
+
+theorem finishCat_spec (F : Fns α) (st2 : State α) (y1 : Mat α) (ln : Option (Mat α))
+    (h : Coherent F st2) :
+    (finishCat F st2 y1 ln).2
+        = .rx [match st2.w with | some ws => conjTMul F.conj (blockDiag ws) y1 | none => y1] ln
+    ∧ (finishCat F st2 y1 ln).1.lastNoise = st2.lastNoise
+    ∧ Coherent F (finishCat F st2 y1 ln).1 := by
+  obtain ⟨hw, hcw⟩ := readBigW_spec F st2 h
+  obtain ⟨c', hfw⟩ := readBigW_frame st2
+  have hrw : readBigW st2 = ({ st2 with bigWc := c' }, specBigW st2) := Prod.ext hfw hw
+  rw [hfw] at hcw
+  unfold finishCat
+  rw [hrw]
+  refine ⟨?_, rfl, hcw⟩
+  simp only [specBigW]
+  cases st2.w <;> rfl
+
+theorem doCorruptCat_spec (F : Fns α) (st : State α) (X : Mat α) (noise : Option (Mat α))
+    (h : Coherent F st) (hn : st.noiseVar.isSome → noise.isSome) :
+    (doCorruptCat F st X noise).2 = .rx [specReceivedCat F st X noise] (specLastNoise st noise)
+    ∧ (doCorruptCat F st X noise).1.lastNoise = specLastNoise st noise
+    ∧ Coherent F (doCorruptCat F st X noise).1 := by
+  obtain ⟨hout, hco⟩ := readBigH_spec F st h
+  obtain ⟨c, hfr⟩ := readBigH_frame F st
+  have hrb : readBigH F st = ({ st with bigHc := c }, .ok (specBigH F st)) := Prod.ext hfr hout
+  rw [hfr] at hco
+  unfold doCorruptCat
+  simp only [hrb]
+  cases hv : st.noiseVar with
+  | none =>
+    simp only [specReceivedCat, specLastNoise, hv]
+    exact finishCat_spec F _ _ none (coherent_lastNoise F _ none none hco)
+  | some v =>
+    cases noise with
+    | none => simp [hv] at hn
+    | some n =>
+      simp only [specReceivedCat, specLastNoise, hv]
+      exact finishCat_spec F _ _ (some n) (coherent_lastNoise F _ (some v) (some n) hco)
+
+theorem doCorruptCat_coherent (F : Fns α) (st : State α) (X : Mat α) (noise : Option (Mat α))
+    (h : Coherent F st) : Coherent F (doCorruptCat F st X noise).1 := by
+  by_cases hn : st.noiseVar.isSome → noise.isSome
+  · exact (doCorruptCat_spec F st X noise h hn).2.2
+  · have hB := (readBigH_spec F st h).2
+    obtain ⟨c, hfr⟩ := readBigH_frame F st
+    have hrb : readBigH F st = ({ st with bigHc := c }, .ok (specBigH F st)) :=
+      Prod.ext hfr (readBigH_spec F st h).1
+    rw [hfr] at hB
+    unfold doCorruptCat
+    simp only [hrb]
+    cases hv : st.noiseVar with
+    | none => simp [hv] at hn
+    | some v =>
+      cases noise with
+      | some n => simp at hn
+      | none => simpa [hv] using hB
+
 /-! ### every operation keeps the caches coherent -/
 
 theorem step_coherent (F : Fns α) (st : State α) (op : Op α) (h : Coherent F st) :
@@ -377,10 +443,26 @@ theorem step_coherent (F : Fns α) (st : State α) (op : Op α) (h : Coherent F 
   have hH := (readH_spec F st h).2
   cases op with
   | init M nr nt K ntE => exact doInit_coherent F st M nr nt K ntE h
-  | randomize M nr nt K ntE => exact doRandomize_coherent F st M nr nt K ntE h
-  | setPL p pe => exact doSetPL_coherent F st p pe h
+  | randomize M nr nt K ntE =>
+    show Coherent F (match randCheck Cfg.fixed st.isExt nr nt K ntE with
+      | some e => (st, Out.err e) | none => doRandomize Cfg.fixed st M nr nt K ntE).1
+    split
+    · exact h
+    · exact doRandomize_coherent F st M nr nt K ntE h
+  | setPL p pe =>
+    show Coherent F (match setPLCheck Cfg.fixed st p pe with
+      | some e => (st, Out.err e) | none => (doSetPL Cfg.fixed st p pe, Out.unit)).1
+    split
+    · exact h
+    · exact doSetPL_coherent F st p pe h
   | setNoise v => exact doSetNoise_coherent F st v h
   | setW w => exact setW_coherent F st w h
+  | readLayout => exact h
+  | readPL => exact h
+  | readNoiseVar => exact h
+  | readLastNoise => exact h
+  | readBigWView => exact (readBigW_spec F st h).2
+  | corruptCat X noise => exact doCorruptCat_coherent F st X noise h
   | readH => exact hH
   | readBigH =>
     show Coherent F (match readBigH F st with
@@ -523,6 +605,7 @@ def SameInputs (a b : State α) : Prop :=
 def Op.isRead : Op α → Bool
   | .readH | .readBigH | .readHkl _ _ | .readHk _ | .readBigHNoExt | .readHkNoExt _ | .readHNoExt => true
   | .corrupt _ _ _ => true
+  | .readLayout | .readPL | .readBigWView | .readNoiseVar | .readLastNoise | .corruptCat _ _ => true
   | _ => false
 
 theorem sameInputs_spec (F : Fns α) {a b : State α} (h : SameInputs a b) :
@@ -534,6 +617,13 @@ theorem finishCorrupt_same (F : Fns α) (st2 : State α) (y : Mat α) (ln : Opti
     SameInputs (finishCorrupt F st2 y ln).1 st2 := by
   obtain ⟨c, hc⟩ := readBigW_frame st2
   unfold finishCorrupt
+  rw [show readBigW st2 = ({ st2 with bigWc := c }, (readBigW st2).2) from Prod.ext hc rfl]
+  exact ⟨rfl, rfl, rfl, rfl, rfl, rfl, rfl, rfl, rfl⟩
+
+theorem finishCat_same (F : Fns α) (st2 : State α) (y : Mat α) (ln : Option (Mat α)) :
+    SameInputs (finishCat F st2 y ln).1 st2 := by
+  obtain ⟨c, hc⟩ := readBigW_frame st2
+  unfold finishCat
   rw [show readBigW st2 = ({ st2 with bigWc := c }, (readBigW st2).2) from Prod.ext hc rfl]
   exact ⟨rfl, rfl, rfl, rfl, rfl, rfl, rfl, rfl, rfl⟩
 
@@ -599,6 +689,30 @@ theorem read_sameInputs (F : Fns α) (st : State α) (op : Op α) (hr : op.isRea
       · exact tr (finishCorrupt_same F _ _ _) hB
       · exact tr (finishCorrupt_same F _ _ _) hB
       · exact hB
+  | readLayout => exact triv
+  | readPL => exact triv
+  | readNoiseVar => exact triv
+  | readLastNoise => exact triv
+  | readBigWView =>
+    obtain ⟨c', hc'⟩ := readBigW_frame st
+    show SameInputs (readBigW st).1 st
+    rw [hc']; exact ⟨rfl, rfl, rfl, rfl, rfl, rfl, rfl, rfl, rfl⟩
+  | corruptCat X noise =>
+    show SameInputs (doCorruptCat F st X noise).1 st
+    unfold doCorruptCat
+    simp only
+    rcases hrb : readBigH F st with ⟨st1, (e | M)⟩
+    · rw [hrb] at hB; exact hB
+    · rw [hrb] at hB
+      simp only
+      have tr : ∀ {a b c : State α}, SameInputs a b → SameInputs b c → SameInputs a c := by
+        intro a b c ⟨h1, h2, h3, h4, h5, h6, h7, h8, h9⟩ ⟨g1, g2, g3, g4, g5, g6, g7, g8, g9⟩
+        exact ⟨h1.trans g1, h2.trans g2, h3.trans g3, h4.trans g4, h5.trans g5, h6.trans g6, h7.trans g7,
+          h8.trans g8, h9.trans g9⟩
+      split
+      · exact tr (finishCat_same F _ _ _) hB
+      · exact tr (finishCat_same F _ _ _) hB
+      · exact hB
 
 
 /-! ### shapes: the documented argument shapes are an invariant -/
@@ -614,11 +728,8 @@ structure WellShaped (st : State α) : Prop where
 /-- argument shapes the API documents (nothing in the code checks them, except in
     `init_from_channel_matrix`) -/
 def OpOK (st : State α) : Op α → Prop
-  | .init M nr nt K ntE =>
-      st.isExt = true → ntE ≠ [] ∧
-        initCheck M (fullLayout true nr nt K ntE).1 (fullLayout true nr nt K ntE).2.1
-          (fullLayout true nr nt K ntE).2.2.1 = true
-  | .randomize _ nr nt K ntE => nr.length = K ∧ nt.length = K ∧ (st.isExt = true → ntE ≠ [])
+  | .init _ _ _ _ ntE => st.isExt = true → ntE ≠ []
+  | .randomize _ _ _ _ ntE => st.isExt = true → ntE ≠ []
   | .setPL (some p) pe =>
       if st.isExt then
         p.length = st.userK ∧ (∀ (i : Nat) (row : List α), p[i]? = some row → row.length = st.userK)
@@ -710,41 +821,50 @@ theorem step_wellShaped (F : Fns α) (st : State α) (op : Op α) (h : WellShape
     show WellShaped (doInit Cfg.fixed st M nr nt K ntE).1
     simp only [OpOK] at hok
     unfold doInit
-    simp only
-    by_cases he : st.isExt = true
-    · obtain ⟨hne, hu⟩ := hok he
-      rw [he, if_pos hu]
+    simp only [Cfg.fixed, if_true]
+    split
+    · rename_i hu
       obtain ⟨h1, h2⟩ := initCheck_lens hu
       refine install_wellShaped _ M _ _ _ h1 h2 ?_ ?_
-      · intro _; simp [fullLayout]
-      · intro _; right
+      · intro he
+        have he' : st.isExt = true := he
+        simp [fullLayout, he']
+      · intro he
+        have he' : st.isExt = true := he
+        right
         cases ntE with
-        | nil => exact absurd rfl hne
-        | cons a t => simp [fullLayout]
-    · have he' : st.isExt = false := by simpa using he
-      split
-      · rename_i hu
-        obtain ⟨h1, h2⟩ := initCheck_lens hu
-        exact install_wellShaped _ M _ _ _ h1 h2 (by simp [he']) (by simp [he'])
-      · exact wellShaped_congr (b := st) rfl rfl rfl rfl (by simp [he']) rfl h
+        | nil => exact absurd rfl (hok he')
+        | cons a t => simp [fullLayout, he']
+    · exact h
   | randomize M nr nt K ntE =>
-    show WellShaped (doRandomize Cfg.fixed st M nr nt K ntE).1
-    obtain ⟨hnr, hnt, hne⟩ := hok
-    unfold doRandomize
-    simp only
-    by_cases he : st.isExt = true
-    · rw [he]
-      refine install_wellShaped _ M _ _ _ (by simp [fullLayout, hnr]) (by simp [fullLayout, hnt]) ?_ ?_
-      · intro _; simp [fullLayout]
-      · intro _; right
-        cases ntE with
-        | nil => exact absurd rfl (hne he)
-        | cons a t => simp [fullLayout]
-    · have he' : st.isExt = false := by simpa using he
-      rw [he']
-      exact install_wellShaped _ M _ _ _ (by simp [fullLayout, hnr]) (by simp [fullLayout, hnt])
-        (by simp [he']) (by simp [he'])
+    show WellShaped (match randCheck Cfg.fixed st.isExt nr nt K ntE with
+      | some e => (st, Out.err e) | none => doRandomize Cfg.fixed st M nr nt K ntE).1
+    simp only [OpOK] at hok
+    split
+    · exact h
+    · rename_i hc
+      simp only [randCheck, Cfg.fixed, Bool.true_and] at hc
+      split at hc
+      · simp at hc
+      · rename_i hlen
+        simp only [Bool.or_eq_true, bne_iff_ne, ne_eq, not_or, Decidable.not_not] at hlen
+        unfold doRandomize
+        simp only
+        refine install_wellShaped _ M _ _ _ hlen.1 hlen.2 ?_ ?_
+        · intro he
+          have he' : st.isExt = true := he
+          simp [fullLayout, he']
+        · intro he
+          have he' : st.isExt = true := he
+          right
+          cases ntE with
+          | nil => exact absurd rfl (hok he')
+          | cons a t => simp [fullLayout, he']
   | setPL p pe =>
+    show WellShaped (match setPLCheck Cfg.fixed st p pe with
+      | some e => (st, Out.err e) | none => (doSetPL Cfg.fixed st p pe, Out.unit)).1
+    split
+    · exact h
     show WellShaped (doSetPL Cfg.fixed st p pe)
     unfold doSetPL
     simp only [Cfg.fixed, if_true]
@@ -799,6 +919,12 @@ theorem step_wellShaped (F : Fns α) (st : State α) (op : Op α) (h : WellShape
   | readHkNoExt k => exact wellShaped_of_same (read_sameInputs F st _ rfl) h
   | readHNoExt => exact wellShaped_of_same (read_sameInputs F st _ rfl) h
   | corrupt x xe noise => exact wellShaped_of_same (read_sameInputs F st _ rfl) h
+  | readLayout => exact wellShaped_of_same (read_sameInputs F st _ rfl) h
+  | readPL => exact wellShaped_of_same (read_sameInputs F st _ rfl) h
+  | readBigWView => exact wellShaped_of_same (read_sameInputs F st _ rfl) h
+  | readNoiseVar => exact wellShaped_of_same (read_sameInputs F st _ rfl) h
+  | readLastNoise => exact wellShaped_of_same (read_sameInputs F st _ rfl) h
+  | corruptCat X noise => exact wellShaped_of_same (read_sameInputs F st _ rfl) h
 
 theorem run_wellShaped (F : Fns α) (ops : List (Op α)) (st : State α) (h : WellShaped st)
     (hv : ValidFrom F st ops) : WellShaped (run Cfg.fixed F st ops).1 := by
@@ -945,16 +1071,23 @@ theorem step_isExt (F : Fns α) (st : State α) (op : Op α) : (step Cfg.fixed F
   · cases op with
     | init M nr nt K ntE =>
       show (doInit Cfg.fixed st M nr nt K ntE).1.isExt = _
-      unfold doInit; simp only; split
+      unfold doInit; simp only [Cfg.fixed, if_true]; split
       · rw [install_isExt]
       · rfl
     | randomize M nr nt K ntE =>
-      show (doRandomize Cfg.fixed st M nr nt K ntE).1.isExt = _
-      unfold doRandomize; simp only; rw [install_isExt]
+      show (match randCheck Cfg.fixed st.isExt nr nt K ntE with
+        | some e => (st, Out.err e) | none => doRandomize Cfg.fixed st M nr nt K ntE).1.isExt = _
+      split
+      · rfl
+      · unfold doRandomize; simp only; rw [install_isExt]
     | setPL p pe =>
-      show (doSetPL Cfg.fixed st p pe).isExt = _
-      unfold doSetPL; simp only [Cfg.fixed, if_true]
-      split <;> cases p <;> rfl
+      show (match setPLCheck Cfg.fixed st p pe with
+        | some e => (st, Out.err e) | none => (doSetPL Cfg.fixed st p pe, Out.unit)).1.isExt = _
+      split
+      · rfl
+      · show (doSetPL Cfg.fixed st p pe).isExt = _
+        unfold doSetPL; simp only [Cfg.fixed, if_true]
+        split <;> cases p <;> rfl
     | setNoise v =>
       show (doSetNoise F st v).1.isExt = _
       unfold doSetNoise
@@ -970,6 +1103,12 @@ theorem step_isExt (F : Fns α) (st : State α) (op : Op α) : (step Cfg.fixed F
     | readHkNoExt k => simp [Op.isRead] at hr
     | readHNoExt => simp [Op.isRead] at hr
     | corrupt x xe noise => simp [Op.isRead] at hr
+    | readLayout => simp [Op.isRead] at hr
+    | readPL => simp [Op.isRead] at hr
+    | readBigWView => simp [Op.isRead] at hr
+    | readNoiseVar => simp [Op.isRead] at hr
+    | readLastNoise => simp [Op.isRead] at hr
+    | corruptCat X noise => simp [Op.isRead] at hr
 
 theorem run_isExt (F : Fns α) (ops : List (Op α)) (st : State α) :
     (run Cfg.fixed F st ops).1.isExt = st.isExt := by
@@ -1005,11 +1144,8 @@ theorem getD2_out_of_range (F : Fns α) (st : State α) (hw : WellShaped st) {k 
 /-! ### a decidable form of the shape guards (used for the concrete examples) -/
 
 def opOKb (st : State α) : Op α → Bool
-  | .init M nr nt K ntE =>
-      !st.isExt || (!ntE.isEmpty &&
-        initCheck M (fullLayout true nr nt K ntE).1 (fullLayout true nr nt K ntE).2.1
-          (fullLayout true nr nt K ntE).2.2.1)
-  | .randomize _ nr nt K ntE => nr.length == K && nt.length == K && (!st.isExt || !ntE.isEmpty)
+  | .init _ _ _ _ ntE => !st.isExt || !ntE.isEmpty
+  | .randomize _ _ _ _ ntE => !st.isExt || !ntE.isEmpty
   | .setPL (some p) pe =>
       if st.isExt then plFits p st.userK st.userK && plFits pe st.userK st.extK
       else plFits p st.k st.k
@@ -1023,15 +1159,12 @@ theorem opOK_of_opOKb (st : State α) (op : Op α) (h : opOKb st op = true) : Op
   cases op with
   | init M nr nt K ntE =>
     simp only [OpOK]
-    intro he
-    simp [opOKb, he] at h
-    exact ⟨by intro hn; simp [hn] at h, h.2⟩
-  | randomize M nr nt K ntE =>
-    simp [opOKb] at h
-    refine ⟨h.1.1, h.1.2, ?_⟩
     intro he hn
-    have := h.2
-    simp [he, hn] at this
+    simp [opOKb, he, hn] at h
+  | randomize M nr nt K ntE =>
+    simp only [OpOK]
+    intro he hn
+    simp [opOKb, he, hn] at h
   | setPL p pe =>
     cases p with
     | none => simp [OpOK]
@@ -1055,6 +1188,12 @@ theorem opOK_of_opOKb (st : State α) (op : Op α) (h : opOKb st op = true) : Op
   | readHkNoExt k => simp [OpOK]
   | readHNoExt => simp [OpOK]
   | corrupt x xe noise => simp [OpOK]
+  | readLayout => simp [OpOK]
+  | readPL => simp [OpOK]
+  | readBigWView => simp [OpOK]
+  | readNoiseVar => simp [OpOK]
+  | readLastNoise => simp [OpOK]
+  | corruptCat X noise => simp [OpOK]
 
 theorem validFrom_of_validb (F : Fns α) (ops : List (Op α)) (st : State α)
     (h : validb F st ops = true) : ValidFrom F st ops := by
@@ -1126,6 +1265,154 @@ theorem block_takeCols (M : Mat α) (st : State α) (hw : WellShaped st) {k l : 
   rw [hsum]
   exact slice_take r (cum_mono st.nt (by omega))
 
+/-! ### a call that raises changes nothing -/
+
+theorem readBigH_lastNoise (F : Fns α) (st : State α) : (readBigH F st).1.lastNoise = st.lastNoise := by
+  obtain ⟨c, hc⟩ := readBigH_frame F st; rw [hc]
+theorem readH_lastNoise (F : Fns α) (st : State α) : (readH F st).1.lastNoise = st.lastNoise := by
+  obtain ⟨c, hc⟩ := readH_frame F st; rw [hc]
+theorem readBigW_lastNoise (st : State α) : (readBigW st).1.lastNoise = st.lastNoise := by
+  obtain ⟨c, hc⟩ := readBigW_frame st; rw [hc]
+
+/-- a call that raises leaves everything a view is computed from, and `last_noise`, as it was -/
+theorem step_err_unchanged (F : Fns α) (st : State α) (op : Op α) (e : Proto.PyErr)
+    (h : (step Cfg.fixed F st op).2 = .err e) :
+    SameInputs (step Cfg.fixed F st op).1 st ∧ (step Cfg.fixed F st op).1.lastNoise = st.lastNoise := by
+  have triv : SameInputs st st := ⟨rfl, rfl, rfl, rfl, rfl, rfl, rfl, rfl, rfl⟩
+  by_cases hr : op.isRead = true
+  · refine ⟨read_sameInputs F st op hr, ?_⟩
+    have hB := readBigH_lastNoise F st
+    have hH := readH_lastNoise F st
+    cases op with
+    | init M nr nt K ntE => simp [Op.isRead] at hr
+    | randomize M nr nt K ntE => simp [Op.isRead] at hr
+    | setPL p pe => simp [Op.isRead] at hr
+    | setNoise v => simp [Op.isRead] at hr
+    | setW w => simp [Op.isRead] at hr
+    | readH => exact hH
+    | readHkl k l => exact hH
+    | readLayout => rfl
+    | readPL => rfl
+    | readNoiseVar => rfl
+    | readLastNoise => rfl
+    | readBigWView => exact readBigW_lastNoise st
+    | readBigH =>
+      show (match readBigH F st with
+        | (st1, .ok M) => (st1, Out.mat M) | (st1, .error e) => (st1, Out.err e)).1.lastNoise = _
+      rcases hrb : readBigH F st with ⟨st1, (e | M)⟩ <;> (rw [hrb] at hB; exact hB)
+    | readHk k =>
+      show (match readBigH F st with
+        | (st1, .ok M) => (st1, getD1 (rowSplit M st1.nrU) k) | (st1, .error e) => (st1, Out.err e)).1.lastNoise = _
+      rcases hrb : readBigH F st with ⟨st1, (e | M)⟩ <;> (rw [hrb] at hB; exact hB)
+    | readBigHNoExt =>
+      show (if st.isExt then
+        (match readBigH F st with
+          | (st1, .ok M) => (st1, Out.mat (takeCols M st1.ntU.sum)) | (st1, .error e) => (st1, Out.err e))
+        else (st, Out.err .AttributeError)).1.lastNoise = _
+      split
+      · rcases hrb : readBigH F st with ⟨st1, (e | M)⟩ <;> (rw [hrb] at hB; exact hB)
+      · rfl
+    | readHkNoExt k =>
+      show (if st.isExt then
+        (match readBigH F st with
+          | (st1, .ok M) => (st1, getD1 (rowSplit (takeCols M st1.ntU.sum) st1.nrU) k)
+          | (st1, .error e) => (st1, Out.err e))
+        else (st, Out.err .AttributeError)).1.lastNoise = _
+      split
+      · rcases hrb : readBigH F st with ⟨st1, (e | M)⟩ <;> (rw [hrb] at hB; exact hB)
+      · rfl
+    | readHNoExt =>
+      unfold step
+      simp only [Cfg.fixed, if_true]
+      split
+      · exact hH
+      · rfl
+    | corrupt x xe noise =>
+      have h' : (doCorrupt F st x xe noise).2 = .err e := h
+      show (doCorrupt F st x xe noise).1.lastNoise = _
+      unfold doCorrupt at h' ⊢
+      simp only at h' ⊢
+      rcases hrb : readBigH F st with ⟨st1, (e' | M)⟩
+      · rw [hrb] at hB; exact hB
+      · rw [hrb] at hB h'
+        simp only at h' ⊢
+        cases hnv : st1.noiseVar with
+        | none => simp [hnv, finishCorrupt] at h'
+        | some v =>
+          cases noise with
+          | some n => simp [hnv, finishCorrupt] at h'
+          | none => simp only [hnv]; exact hB
+    | corruptCat X noise =>
+      have h' : (doCorruptCat F st X noise).2 = .err e := h
+      show (doCorruptCat F st X noise).1.lastNoise = _
+      unfold doCorruptCat at h' ⊢
+      simp only at h' ⊢
+      rcases hrb : readBigH F st with ⟨st1, (e' | M)⟩
+      · rw [hrb] at hB; exact hB
+      · rw [hrb] at hB h'
+        simp only at h' ⊢
+        cases hnv : st1.noiseVar with
+        | none => simp [hnv, finishCat] at h'
+        | some v =>
+          cases noise with
+          | some n => simp [hnv, finishCat] at h'
+          | none => simp only [hnv]; exact hB
+  · cases op with
+    | init M nr nt K ntE =>
+      have h' : (doInit Cfg.fixed st M nr nt K ntE).2 = .err e := h
+      show SameInputs (doInit Cfg.fixed st M nr nt K ntE).1 st ∧ (doInit Cfg.fixed st M nr nt K ntE).1.lastNoise = _
+      unfold doInit at h' ⊢
+      simp only [Cfg.fixed, if_true] at h' ⊢
+      split
+      · rename_i hc; simp [hc] at h'
+      · exact ⟨triv, rfl⟩
+    | randomize M nr nt K ntE =>
+      have h' : (match randCheck Cfg.fixed st.isExt nr nt K ntE with
+        | some e => (st, Out.err e) | none => doRandomize Cfg.fixed st M nr nt K ntE).2 = .err e := h
+      show SameInputs (match randCheck Cfg.fixed st.isExt nr nt K ntE with
+        | some e => (st, Out.err e) | none => doRandomize Cfg.fixed st M nr nt K ntE).1 st ∧
+        (match randCheck Cfg.fixed st.isExt nr nt K ntE with
+        | some e => (st, Out.err e) | none => doRandomize Cfg.fixed st M nr nt K ntE).1.lastNoise = _
+      split
+      · exact ⟨triv, rfl⟩
+      · rename_i hc; simp [hc, doRandomize] at h'
+    | setPL p pe =>
+      have h' : (match setPLCheck Cfg.fixed st p pe with
+        | some e => (st, Out.err e) | none => (doSetPL Cfg.fixed st p pe, Out.unit)).2 = .err e := h
+      show SameInputs (match setPLCheck Cfg.fixed st p pe with
+        | some e => (st, Out.err e) | none => (doSetPL Cfg.fixed st p pe, Out.unit)).1 st ∧
+        (match setPLCheck Cfg.fixed st p pe with
+        | some e => (st, Out.err e) | none => (doSetPL Cfg.fixed st p pe, Out.unit)).1.lastNoise = _
+      split
+      · exact ⟨triv, rfl⟩
+      · rename_i hc; simp [hc] at h'
+    | setNoise v =>
+      have h' : (doSetNoise F st v).2 = .err e := h
+      show SameInputs (doSetNoise F st v).1 st ∧ (doSetNoise F st v).1.lastNoise = _
+      unfold doSetNoise at h' ⊢
+      cases v with
+      | none => simp at h'
+      | some x =>
+        simp only at h' ⊢
+        split
+        · rename_i hx; simp [hx] at h'
+        · exact ⟨triv, rfl⟩
+    | setW w => simp [step] at h
+    | readH => simp [Op.isRead] at hr
+    | readBigH => simp [Op.isRead] at hr
+    | readHkl k l => simp [Op.isRead] at hr
+    | readHk k => simp [Op.isRead] at hr
+    | readBigHNoExt => simp [Op.isRead] at hr
+    | readHkNoExt k => simp [Op.isRead] at hr
+    | readHNoExt => simp [Op.isRead] at hr
+    | corrupt x xe noise => simp [Op.isRead] at hr
+    | readLayout => simp [Op.isRead] at hr
+    | readPL => simp [Op.isRead] at hr
+    | readBigWView => simp [Op.isRead] at hr
+    | readNoiseVar => simp [Op.isRead] at hr
+    | readLastNoise => simp [Op.isRead] at hr
+    | corruptCat X noise => simp [Op.isRead] at hr
+
 /-! ### what the mutators store -/
 
 theorem install_fields (st : State α) (M : Mat α) (nr nt : List Nat) (K : Nat) :
@@ -1150,7 +1437,8 @@ theorem init_eq_randomize (F : Fns α) (st : State α) (M : Mat α) (nr nt : Lis
     (h : initCheck M (fullLayout st.isExt nr nt K ntE).1 (fullLayout st.isExt nr nt K ntE).2.1
       (fullLayout st.isExt nr nt K ntE).2.2.1 = true) :
     step Cfg.fixed F st (.init M nr nt K ntE) = step Cfg.fixed F st (.randomize M nr nt K ntE) := by
-  simp [step, doInit, doRandomize, h]
+  obtain ⟨h1, h2⟩ := initCheck_lens h
+  simp [step, doInit, doRandomize, randCheck, h, h1, h2, Cfg.fixed]
 
 end Machine
 
